@@ -27,6 +27,9 @@ TRUSTED = [
     "slot operator, sorted USE deps, repository): not proved here (C04 models atom.match), checked on differently spelled equal atoms",
     "ver_cmp is taken from the C01 model; version strings are lexed into its structure by the harness",
     "snakeoil GenericEquality (compare getattr(x, attr, sentinel) over __attr_comparison__) and cached_hash as read in snakeoil 0.11",
+    "snakeoil WeakInstMeta as read in snakeoil 0.11: cls(*a, **kw) is a dict lookup of (a, sorted kw) in the class's weak __inst_dict__ of alive "
+    "instances; instances whose arguments compare equal are == (constructors are functions of their arguments).  The harness empties every "
+    "restriction class's __inst_dict__ from outside to obtain the 'built alone' reference of a description",
 ]
 ASSUMPTIONS = [
     "the revision handed to _VersionMatch is None or a cpv.Revision (as atoms and the documented API pass it), never a plain str",
@@ -41,7 +44,12 @@ RULE = ("pairs of restrictions built independently through the public constructo
         "under negate, ~ with/without negate, revision None/''/'0'/'00'/'1'/'01', reordered or duplicated USE / set members, ! vs !!, case "
         "variants, hashed vs unhashed, if_missing flipped, DepSet permuted/duplicated, key/tag/ignore_missing changed) or a one-field mutation, "
         "applied at a random depth; PackageRestrictionMulti over several attribute tuples; boolean nodes assembled step by step (finalize=False, "
-        "add_restriction, finalize, with hash / dict / set / parent-node uses in between) against the same tree built in one go.  Each pair is compared with ==/!=/hash and matched against a universe of its domain (strings, string sets, "
+        "add_restriction, finalize, with hash / dict / set / parent-node uses in between) against the same tree built in one go; sibling classes over the "
+        "same arguments (ContainmentMatch <-> _UseDepDefaultContainment, StaticUseDep <-> UseDepDefault, also nested in boolean trees and multi-attribute "
+        "restrictions); atoms built from their parts (operator, version, revision, blocker, slot, sub-slot, slot operator none/=/*, USE deps with "
+        "sign and (+)/(-) default, repository) with variants differing in exactly one part or respelling it; families of 2-4 related descriptions "
+        "built one after the other with instance caching ON and all kept alive, each compared with the same description built alone (all instance "
+        "caches emptied) and pairwise with each other.  Each pair is compared with ==/!=/hash and matched against a universe of its domain (strings, string sets, "
         "(iuse, use) pairs, 40 packages).  non-trivial = the two objects are distinct and were built from different descriptions or hash states")
 
 
@@ -1362,7 +1370,9 @@ LEVEL_TEXT = ("Kernel-checked Lean 4 theorems about a model of __eq__/__hash__/m
               "restrictions match the same values for every nesting, environment and value (eq_implies_same_match, structural induction incl. "
               "_convert_ops normalisation, Revision comparison, frozenset attributes, tuple and set-based (DepSet) equality of children) and have "
               "equal hash keys (eq_implies_same_hash); a dict keyed by restrictions returns only values stored under an equal key, hence the value "
-              "computed for the query itself (cache_lookup_sound, caching_repo_sound) and always hits on an equal key (cache_hit_complete). Tied to "
+              "computed for the query itself (cache_lookup_sound, caching_repo_sound) and always hits on an equal key (cache_hit_complete); a "
+              "description rebuilt bottom-up through instance caches that answer any constructor call with an alive equal instance matches what "
+              "the description built alone matches, whatever was built before (instance_cache_transparent, build_history_irrelevant). Tied to "
               "the code by building pairs of real objects, comparing ==, hash and match with the model, evaluating the property directly on the "
               "real objects, and exercising caching_repo and the REQUIRED_USE lru_cache with equal keys.")
 LEVEL_NOTE = ("Trusted: CPython hash/dict/set semantics as stated; abstract primitives (re, str.lower, user functions); atom.match as a function of "
